@@ -31,7 +31,7 @@ import (
 //     its windows is zero afterwards (C07.release.window-not-zero).
 //   - `smem <w> <dataReg> <k> <hex> <opc> <sdata> <sbase> <off>`: one cache-line piece of a real
 //     s_load_dword* pushed through the real ScalarUnit.executeSMEMLoad and
-//     ComputeUnit.handleScalarDataLoadReturn (Lean: TimingRF.smemReturn). Oracle: afterwards the
+//     ComputeUnit.handleScalarDataLoadReturn (Lean: TimingRF.smemReturn; SDATA may be vcc / exec / m0). Oracle: afterwards the
 //     data operand, read through the accessor, holds the loaded dwords (C07.smem-return.*).
 //   - life scenarios (`life=1`): a zero-filled compute unit, windows from a real CUResourceImpl,
 //     work-groups coming and going; a window handed to a new wavefront must be clean
@@ -722,6 +722,17 @@ func c07DispTimCase(r *Run, rng *Rng, n int) {
 			}
 			sd := rng.Intn(ns[w] - cnt + 1)
 			base := uint64(0x1000 + 4*rng.Intn(64))
+			if rng.Chance(30) {
+				// SDATA names a register that is not an SGPR (legal ISA): vcc, exec, m0 — also split
+				// over two cache lines (second piece: vcc_hi / exec_hi)
+				sp := [][3]int{{106, int(insts.VCCLO), 1}, {106, int(insts.VCCLO), 0}, {107, int(insts.VCCHI), 0},
+					{126, int(insts.EXECLO), 1}, {126, int(insts.EXECLO), 0}, {127, int(insts.EXECHI), 0}, {124, int(insts.M0), 0}}[rng.Intn(7)]
+				if rng.Chance(40) {
+					base = 0x1000 + 60 // a dwordx2 from here straddles the 64-byte line
+				}
+				ops = append(ops, c07SmemOps(rng, w, sp[2], sp[0], sp[1], sb, base, 0)...)
+				continue
+			}
 			ops = append(ops, c07SmemOps(rng, w, opc, sd, int(insts.S0)+sd, sb, base, 4*rng.Intn(32))...)
 		default:
 			ops = append(ops, c07GenOp(rng, w, ns[w], nv[w], true))
@@ -1119,19 +1130,23 @@ func runC07Disp(r *Run, rng *Rng, replay string) {
 	} else {
 		r.Failf("C07.decode-witness.stale", line, "s_load_dwordx4 with SDATA = 106 no longer decodes to a vcc_lo operand: %s", ans)
 	}
-	// --- scalar load into VCC (theorem smem_return_is_operand_write_refuted): the timing return path
-	// writes through the register FILE at SReg(RegIndex(vcc_lo) + k) = SReg(-1) = v255, i.e. into
-	// the scalar file 1020 bytes behind the wavefront's window — another wavefront's SGPRs — and
-	// VCC keeps its old value; the emulator loads VCC
-	fired := c07Fired(r, "C07.smem-return.special", func() {
+	// --- scalar load into VCC (theorem smem_return_is_operand_write_full; before fix 62188db2 the
+	// timing return path wrote through the register FILE at SReg(RegIndex(vcc_lo) + k) = SReg(-1) =
+	// v255, i.e. into the scalar file 1020 bytes behind the wavefront's window — another wavefront's
+	// SGPRs — and VCC kept its old value: smem_return_is_operand_write_before_fix_refuted). The former
+	// witness must now load VCC and leave the other wavefront alone (C07.smem-return.special / .frame).
+	{
 		ops := []string{"c07 tim fill=0 nsimd=1 cu=full wf=0:128:0:16:4,0:1088:16:32:4", "set 0 0 ffffffffffffffff 0 0", "set 1 0 ffffffffffffffff 0 0"}
 		ops = append(ops, fmt.Sprintf("w 0 %d 2 0 1000", int(insts.S0)+4))
 		ops = append(ops, fmt.Sprintf("smem 0 %d 0 8f77f35bab8671db 1 106 2 0", insts.VCCLO))
+		ops = append(ops, fmt.Sprintf("r 0 %d 2 0", insts.VCCLO), fmt.Sprintf("rb 1 %d 4 0 16", int(insts.S0)+12))
 		runC07Scenario(r, ops, "valid")
-	})
-	r.Checked("smem-witness")
-	if !fired {
-		r.Failf("C07.smem-witness.stale", "s_load_dwordx2 vcc, s[4:5], 0x0", "the listed defect no longer reproduces (repaired? remove the finding and the refuted theorem)")
+		// the same load split over two cache lines: vcc_lo with the first piece, vcc_hi with the second
+		ops = []string{"c07 tim fill=0 nsimd=1 cu=full wf=0:128:0:16:4,0:1088:16:32:4", "set 0 0 ffffffffffffffff 0 0", "set 1 0 ffffffffffffffff 0 0"}
+		ops = append(ops, fmt.Sprintf("w 0 %d 2 0 103c", int(insts.S0)+4))
+		ops = append(ops, fmt.Sprintf("smem 0 %d 0 8f77f35b 1 106 2 0", insts.VCCLO), fmt.Sprintf("smem 0 %d 1 ab8671db 1 106 2 0", insts.VCCLO))
+		ops = append(ops, fmt.Sprintf("r 0 %d 2 0", insts.VCCLO))
+		runC07Scenario(r, ops, "valid")
 	}
 	// --- dispatch: the ABI registers must fit the declared register counts (hypothesis AbiFits of
 	// dispatch_writes_only_own_window cannot be dropped): a code object that declares 0 SGPRs but
